@@ -443,9 +443,9 @@ pub fn run(rc: &mut RunCtx) {
         let mut r = Rng::for_case(seed, 6, s);
         // short frames only, so the pair space stays small
         let (frames, encs) = loop {
-            let (f, e) = gen_stream(&mut r, 3);
+            let (f, e) = gen_stream(&mut r, if rc.miri() { 2 } else { 3 });
             let len: usize = e.iter().map(|x| x.len()).sum();
-            if len <= if rc.miri() { 18 } else if rc.quick() { 90 } else { 160 } {
+            if len <= if rc.miri() { 30 } else if rc.quick() { 90 } else { 160 } {
                 break (f, e);
             }
         };
